@@ -1,5 +1,6 @@
 """C10 — unconnected parts of a simulation never influence each other."""
 import copy
+import os
 import random
 
 import model
@@ -135,6 +136,32 @@ def run(tier, seed, drv):
                 elif nb != ne:
                     k = next(k for k in sorted(set(nb) | set(ne), key=str) if nb.get(k) != ne.get(k))
                     res.violate(V("adapter-influenced-by-unconnected-part", f"adding {label}: {k} saw {ne.get(k)} instead of {nb.get(k)}", site=str(k[0]), extension=label), case)
+    # the shipped EpicsIo with the real softioc record builder, in a fresh interpreter: the records of an
+    # EPICS adapter alone vs with other (unconnected) EPICS devices set up concurrently
+    import json as _json
+    import subprocess
+    worker = os.path.join(os.path.dirname(os.path.dirname(os.path.abspath(__file__))), "c10_epics_worker.py")
+    for k, (names, db) in enumerate([(["alpha", "beta"], {"alpha": True, "beta": True}), (["alpha", "beta", "gamma"], {"alpha": False, "beta": True, "gamma": True}),
+                                     (["alpha", "beta"], {"alpha": True, "beta": False})][: (2 if tier == "quick" else 3)]):
+        spec = {"runs": {"base": ["alpha"], "ext": names}, "db": db}
+        p_ = subprocess.run(["/venv/bin/python", worker], input=_json.dumps(spec), capture_output=True, text=True, timeout=300)
+        try:
+            out = _json.loads(p_.stdout.strip().splitlines()[-1])
+        except Exception:
+            out = {"ok": False, "error": (p_.stdout + p_.stderr)[-300:]}
+        case = {"epics_io": spec}
+        res.case(f"epics-io:{k}", nontrivial=True)
+        res.count("epics-io-worker")
+        if not out.get("ok"):
+            res.violate(V("epics-io-worker-failed", out.get("error", "")[-300:], site="EpicsIo"), case)
+            continue
+        base, ext = out["out"]["base"]["alpha"], out["out"]["ext"]["alpha"]
+        if base != ext:
+            res.violate(V("adapter-influenced-by-unconnected-part", f"EPICS records of 'alpha' alone {base} vs with {names[1:]} present {ext}", site="EpicsIo.setup", extension="epics-io"), case)
+        for n in names:
+            got = out["out"]["ext"][n]
+            if list(got["records"]) != [f"{n.upper()}:VALUE"] or got["notified"] != 1:
+                res.violate(V("adapter-influenced-by-unconnected-part", f"EPICS adapter of {n}: records {got['records']}, notified {got['notified']}", site="EpicsIo.setup", extension="epics-io"), case)
     res.rule = ("bases: flat pair with EPICS adapters, source->system->sink with an EPICS sink, generated nestings; each extended by: a periodic device, a "
                 "chain, a sibling system, a depth-2 system, a device with the shipped EpicsAdapter, a device with a CommandAdapter subclass, a "
                 "disconnected device inside one of the base's systems; synchronous and delaying bus; the base part's observation sequences, adapter "
